@@ -30,7 +30,9 @@ import (
 // ---------------------------------------------------------------------------
 
 // mapOrderAllow is the confirmed instance table (read and triaged by hand).
-var mapOrderAllow = map[string]string{}
+var mapOrderAllow = map[string]string{
+	"(*storage/execout/pb.Map).MarshalFast/map-range#1": "the item order inside a cached-output file follows map iteration; readers (UnmarshalFast) rebuild a map keyed by block id and SortedItems sorts before anything is sent, so only the bytes — not the content — of the file vary",
+}
 
 type mapLoop struct {
 	Fn      *ssa.Function
@@ -197,6 +199,15 @@ func classifyMapLoop(p *core.Prog, ml *mapLoop, memo map[*ssa.Function]string) {
 							if ph, ok := op.(*ssa.Phi); ok && ph.Block() == ml.Loop.Header {
 								sensitive("string concatenation across iterations at " + p.Pos(x.Pos()))
 							}
+						}
+					}
+				}
+			case *ssa.Store:
+				// slice element written at a position given by a loop-carried counter: the position depends on iteration order
+				if ia, ok := x.Addr.(*ssa.IndexAddr); ok {
+					if _, isSlice := ia.X.Type().Underlying().(*types.Slice); isSlice {
+						if ph, ok := core.SkipConv(ia.Index).(*ssa.Phi); ok && ph.Block() == ml.Loop.Header && derivesFromNext(x.Val, ml.Next) {
+							sensitive("stores iteration values at positions given by a running counter (slice order = map iteration order) at " + p.Pos(x.Pos()))
 						}
 					}
 				}
@@ -388,6 +399,12 @@ func sortedAfter(fn *ssa.Function, l *core.Loop, slice ssa.Value) bool {
 		if !uses {
 			return
 		}
+		if st, isStore := in.(*ssa.Store); isStore && st.Addr == slice {
+			return // a write to the variable, not a use of its content
+		}
+		if in.Block() != l.Header && in.Block().Dominates(l.Header) {
+			return // happens before the loop
+		}
 		if v, isV := in.(ssa.Value); isV && feedsSort(v) {
 			return // the load / closure that is the sort's own argument
 		}
@@ -436,7 +453,9 @@ func checkMapOrder(p *core.Prog, r *core.Report, rule string, roots []*ssa.Funct
 		case "commutative", "sorted-append":
 			r.Add(&core.Obligation{Rule: rule, Construct: construct, Desc: desc + " [" + ml.Class + "]", Status: core.OK, Sites: []string{pos}})
 		default:
-			if why, ok := allow[construct]; ok {
+			if why, ok := mapOrderPkgAllow[pkgRel(ml.Fn)]; ok {
+				r.Add(&core.Obligation{Rule: rule, Construct: construct, Desc: desc + " [" + ml.Class + ", package out of scope: " + why + "]", Status: core.OK, Sites: []string{pos}, Detail: strings.Join(ml.Reasons, "; ")})
+			} else if why, ok := allow[construct]; ok {
 				r.Add(&core.Obligation{Rule: rule, Construct: construct, Desc: desc + " [" + ml.Class + ", allowed: " + why + "]", Status: core.OK, Sites: []string{pos}, Detail: strings.Join(ml.Reasons, "; ")})
 			} else if ml.Class == "unknown" {
 				r.Add(&core.Obligation{Rule: rule, Construct: construct, Desc: desc, Status: core.Undec, Detail: strings.Join(ml.Reasons, "; "), Sites: []string{pos}})
@@ -455,4 +474,17 @@ func isGenerated(p *core.Prog, fn *ssa.Function) bool {
 	}
 	name := p.Fset.Position(pos).Filename
 	return strings.HasSuffix(name, ".pb.go") || strings.HasSuffix(name, "_vtproto.pb.go") || strings.HasSuffix(name, ".connect.go")
+}
+
+// mapOrderPkgAllow: packages whose order-sensitive map loops cannot influence data outputs.
+var mapOrderPkgAllow = map[string]string{
+	"metrics": "progress / statistics messages only: never part of block data, cache files or stores",
+}
+
+func pkgRel(fn *ssa.Function) string {
+	root := core.RootFn(fn)
+	if root.Pkg == nil {
+		return ""
+	}
+	return strings.TrimPrefix(root.Pkg.Pkg.Path(), core.ModPath+"/")
 }
